@@ -393,6 +393,35 @@ func TestVerif_C01(t *testing.T) {
 			r.Pass(id)
 		}
 	}
+	// deep reordering: one connection starved while thousands of later frames of the same stream
+	// arrive over the others (what a lagging TCP connection does)
+	for i := 0; i < r.Pick(3, 24); i++ {
+		id := fmt.Sprintf("deep-reorder-%d", i)
+		if !r.Mine(id) {
+			continue
+		}
+		rng := r.Rand("c01d", i)
+		c := &c01Case{}
+		c.Cfg = rigCfg{Method: methods[i%4], NumConn: 2 + i%3, Router: true, Policy: "starve", Seg: "all"}
+		nframes := r.Pick(1600, 6000)
+		st := &c01Stream{Tag: 0xDEE9000000000001 &^ downBit}
+		st.Up = []int{16}
+		for k := 0; k < nframes; k++ {
+			st.Up = append(st.Up, 1+rng.IntN(48))
+		}
+		st.Down = []int{16, 100}
+		c.Streams = []*c01Stream{st}
+		c.NStream = 1
+		c.Sample = &c01Stream{Tag: st.Tag, Up: st.Up[:8], Down: st.Down}
+		r.Case(id, map[string]any{"cfg": c.Cfg, "frames": nframes})
+		k, d := c01Run(t, r, id, c)
+		r.Distinct("cases", vk.Hash64("deep", c.Cfg, nframes))
+		if k != "" {
+			r.Violation(id, "C01:"+k, fmt.Sprintf("%s; deep-reorder case cfg %+v with %d small frames on one stream", d, c.Cfg, nframes), nil)
+		} else {
+			r.Pass(id)
+		}
+	}
 	// forced interleaving: sends while addConn is between publishing the count and storing the conn
 	for i := 0; i < r.Pick(4, 16); i++ {
 		id := fmt.Sprintf("forced-addconn-%d", i)
